@@ -493,6 +493,10 @@ def run_real(contract, rargs, rkwargs):
         return None, e
 
 
+def _short(dec):
+    return dec if len(dec) <= 24 else list(dec[:24]) + [f'... {len(dec)} decisions']
+
+
 def verify_contract(contract_cls, rlimit=20_000_000, seed=0, crosscheck=True):
     """explore all paths of the contract body on the real AST; discharge every clause on every path"""
     t_start = time.time()
@@ -564,7 +568,7 @@ def verify_contract(contract_cls, rlimit=20_000_000, seed=0, crosscheck=True):
                 break
             except Unsupported as u:
                 status = 'unsupported'
-                out['unsupported'].append(f'{u} [path {ctx.decisions}]')
+                out['unsupported'].append(f'{u} [path {_short(ctx.decisions)}]')
                 break
             except RecursionError:
                 status = 'unsupported'
@@ -628,7 +632,7 @@ def verify_contract(contract_cls, rlimit=20_000_000, seed=0, crosscheck=True):
             if r == z3.unknown:
                 if st['status'] == 'discharged':
                     st['status'] = 'undecided'
-                    st['reason'] = f'z3 and cvc5 both unknown on path {ctx.decisions}: {ctx.solver.reason_unknown()}'
+                    st['reason'] = f'z3 and cvc5 both unknown on path {_short(ctx.decisions)}: {ctx.solver.reason_unknown()}'
                 continue
             # sat: counter-model -> replay on the real code
             if st['status'] == 'violated' and st['confirmed']:
@@ -657,14 +661,14 @@ def verify_contract(contract_cls, rlimit=20_000_000, seed=0, crosscheck=True):
             st['status'] = 'violated'
             st['confirmed'] = confirmed
             st['witness'] = witness
-            st['reason'] = f'refuted on path {ctx.decisions}' + ('' if confirmed else ' (counter-model did not replay)')
+            st['reason'] = f'refuted on path {_short(ctx.decisions)}' + ('' if confirmed else ' (counter-model did not replay)')
         # ---- CPython cross-check of the encoding on this path
         if crosscheck and model_pc is not None:
             try:
                 mism = '' if C.no_crosscheck else crosscheck_path(C, init, args, kwargs, result, exc, model_pc)
                 out['crosscheck']['compared'] += 0 if C.no_crosscheck else 1
                 if mism:
-                    out['crosscheck']['mismatches'].append(f'path {ctx.decisions}: {mism}')
+                    out['crosscheck']['mismatches'].append(f'path {_short(ctx.decisions)}: {mism}')
             except Exception as e:  # noqa
                 out['crosscheck']['mismatches'].append(f'path {ctx.decisions}: cross-check crashed: {e!r} '
                                                        f'{traceback.format_exc()[-400:]}')
